@@ -25,6 +25,7 @@ PRE = (
     "from inline_snapshot import snapshot, outsource, external\n\n\n"
     "class Boom:\n    def __eq__(self, other):\n        raise ValueError('boom')\n    def __repr__(self):\n        return 'Boom()'\n\n\n"
     "class Ident:\n    pass\n\n\n"
+    "def make():\n    from dataclasses import make_dataclass\n    return make_dataclass('Made', ['q'])(q=[1])\n\n\n"
 )
 
 SHAPES = {
@@ -46,6 +47,15 @@ SHAPES = {
     "never-compared-empty": ["s = snapshot()"],
     "never-compared-two-leaves": ["s = snapshot([1+0, 2+0, (3+0,)])"],
     "never-compared-call": ["s = snapshot(dict(a=1+0))"],
+    # never compared, and the argument is no display / constructor call written in place
+    "never-compared-name-dataclass": ["v = DC(x=1, y=2)", "s = snapshot(v)"],
+    "never-compared-name-list": ["v = [1, [2]]", "s = snapshot(v)"],
+    "never-compared-name-dict": ["v = {'a': (1,)}", "s = snapshot(v)"],
+    "never-compared-attr": ["import types", "ns = types.SimpleNamespace(v=DC(x=[1]))", "s = snapshot(ns.v)"],
+    "never-compared-helper-call": ["s = snapshot(make())"],
+    "never-compared-defaultdict": ["from collections import defaultdict", "s = snapshot(defaultdict(list))"],
+    "never-compared-defaultdict-filled": ["from collections import defaultdict", "s = snapshot(defaultdict(list, {'a': [1]}))"],
+    "never-compared-nested-name": ["v = DC(x=1)", "s = snapshot([v, {'k': v}])"],
     # inner snapshots
     "inner-parent-replaced": ["assert 5 == snapshot([snapshot(1+1)])"],
     "inner-deleted": ["assert [1] == snapshot([1, snapshot(1+1)])"],
